@@ -1,4 +1,5 @@
 mod c02;
+mod c05;
 mod core;
 mod sess;
 pub use wowsim_glue::{alloc, model, pipe, rng, umask, world, wowm};
@@ -114,6 +115,11 @@ fn make_check(id: &str) -> Box<dyn core::Check> {
     match id {
         "C02" => {
             let c = c02::C02::new();
+            c02::register_opcodes(&c.ctx);
+            Box::new(c)
+        }
+        "C05" => {
+            let c = c05::C05::new();
             c02::register_opcodes(&c.ctx);
             Box::new(c)
         }
